@@ -29,7 +29,9 @@ EXTENDS Integers, Sequences, FiniteSets, SequencesExt, TLC
 
 CONSTANTS KeyBits,      \* RSA key sizes
           NonceLens,    \* nonce lengths of the round trip cases
-          Passwords     \* set of [cls, n] (n characters of class cls) of the round trip cases
+          Passwords,    \* set of [cls, n] (n characters of class cls) of the round trip cases
+          ByteCombos,   \* sequence of <<key bits, padding>> of the byte-level crafted plaintexts
+          ByteSample    \* TRUE: every byte-level plaintext gets one of the combinations (spread evenly), FALSE: all of them
 
 Paddings == {"pkcs1", "oaep-sha1", "oaep-sha256"}
 Overhead(pad) == CASE pad = "pkcs1" -> 11 [] pad = "oaep-sha1" -> 42 [] pad = "oaep-sha256" -> 66
@@ -116,8 +118,48 @@ ArbCases == {[kind |-> "arb", bits |-> b, pad |-> p, clen |-> l, fill |-> f]
               : b \in KeyBits, p \in Paddings, l \in CipherLens, f \in {"zero", "ff", "rand"}}
 ArbSpec(c) == [fail |-> "none", site |-> "", out |-> [legacy |-> "err", token |-> "err"]]
 
-Cases == RtCases \cup {c \in CraftCases : CraftOK(c)} \cup ArbCases
+-----------------------------------------------------------------------------
+(* byte-level crafted plaintexts ("bytes"): what a hostile client can send -- ANY bytes, correctly encrypted    *)
+(* with the server's public key.  Here the model is concrete: nonce and plaintext are sequences of byte        *)
+(* values, the plaintext is  L (4 bytes, little endian) o body, and the specified decryption is a total        *)
+(* function on byte sequences.  All bytes are < 128, so every byte sequence is valid UTF-8.                    *)
+LE32(n) == <<n % 256, (n \div 256) % 256, (n \div 65536) % 256, (n \div 16777216) % 256>>
+Rand(i) == ((i * 37 + 11) % 126) + 1                       \* 1..126, never 0
+RandSeq(n, k) == [i \in 1..n |-> Rand(i + k)]
+ByteNonceLens == {0, 1, 2, 3, 4, 5, 32}
+\* nonce classes: pseudo-random, all zero, 1..4 leading zero bytes, and <<len - 4, 0, 0, 0, ...>> (= a length prefix)
+LeadZero(l, k) == [i \in 1..l |-> IF i <= k THEN 0 ELSE Rand(i)]
+ByteNonces == UNION {{RandSeq(l, 0), [i \in 1..l |-> 0]} \cup {LeadZero(l, k) : k \in 1..4}
+                     \cup (IF l >= 4 THEN {[i \in 1..l |-> IF i = 1 THEN l - 4 ELSE IF i <= 4 THEN 0 ELSE Rand(i)]} ELSE {})
+                     : l \in ByteNonceLens}
+BPw == <<112, 119>>                                          \* "pw"
+Wrong(n) == IF n = <<>> THEN <<9>> ELSE [n EXCEPT ![Len(n)] = (n[Len(n)] % 126) + 1]
+\* body classes: tails of the nonce, the whole nonce, password o nonce, password o wrong nonce, empty, unrelated bytes
+Bodies(n) == {SubSeq(n, d + 1, Len(n)) : d \in {x \in 1..4 : x <= Len(n)}}
+             \cup {n, BPw \o n, BPw \o Wrong(n), <<>>, RandSeq(3, 50), RandSeq(Len(n), 50)}
+\* length prefix classes, relative to the nonce length and to the body
+Prefixes32(n, body) == {LE32(x) : x \in {y \in {0, Len(n) - 5, Len(n) - 4, Len(n) - 3, Len(n) - 2, Len(n) - 1, Len(n), Len(n) + 1,
+                                                Len(body), Len(body) + 1, Len(body) + Len(n)} : y >= 0}}
+                       \cup {<<255, 255, 255, 255>>}
+CombosFor(n, pt) == IF ByteSample THEN {ByteCombos[((Len(pt) + Len(n) + pt[1] + pt[Len(pt)]) % Len(ByteCombos)) + 1]}
+                    ELSE {ByteCombos[i] : i \in 1..Len(ByteCombos)}
+ByteCases == UNION {UNION {UNION {{[kind |-> "bytes", bits |-> k[1], pad |-> k[2], nonce |-> n, pt |-> pre \o body]
+                                   : k \in CombosFor(n, pre \o body)} : pre \in Prefixes32(n, body)} : body \in Bodies(n)} : n \in ByteNonces}
+
+LastK(s, k) == SubSeq(s, Len(s) - k + 1, Len(s))
+BodyOf(pt) == SubSeq(pt, 5, Len(pt))
+\* Part 4: the body ends with the server nonce
+NonceMatches(pt, n) == Len(pt) - 4 >= Len(n) /\ LastK(pt, Len(n)) = n
+(* L1: the specified decryption of a plaintext: error, or the password (body without the nonce) *)
+SpecDecrypt(pt, n) ==
+  IF Len(pt) < 4 \/ SubSeq(pt, 1, 4) # LE32(Len(pt) - 4) \/ ~NonceMatches(pt, n) THEN [o |-> "err", pw |-> <<>>]
+  ELSE [o |-> "ok", pw |-> SubSeq(pt, 5, Len(pt) - Len(n))]
+ByteSpec(c) == [fail |-> "none", site |-> "", out |-> [legacy |-> SpecDecrypt(c.pt, c.nonce), token |-> SpecDecrypt(c.pt, c.nonce)]]
+Honest(c) == c.pt = LE32(Len(BPw) + Len(c.nonce)) \o BPw \o c.nonce
+
+Cases == RtCases \cup {c \in CraftCases : CraftOK(c)} \cup ArbCases \cup ByteCases
 Spec(c) == CASE c.kind = "rt" -> RtSpec(c) [] c.kind = "craft" -> CraftSpec(c) [] c.kind = "arb" -> ArbSpec(c)
+             [] c.kind = "bytes" -> ByteSpec(c)
 
 -----------------------------------------------------------------------------
 (* L2: the judge                                                            *)
@@ -142,7 +184,15 @@ CraftViol(c, r) ==
 
 ArbViol(c, r) == Panic(r)
 
-PwViol(e) == CASE e.c.kind = "rt" -> RtViol(e.c, e.r)
+\* r.out[api] = [o |-> "ok" / "err" / "panic", pw |-> the bytes of the returned password]
+ByteViol(c, r) ==
+  Panic(r)
+  \cup (IF \E a \in Apis : r.out[a].o = "ok" /\ ~NonceMatches(c.pt, c.nonce) THEN {"accepted-with-a-different-nonce:crafted-bytes"} ELSE {})
+  \cup (IF Honest(c) /\ \E a \in Apis : r.out[a].o = "err" \/ (r.out[a].o = "ok" /\ r.out[a].pw # BPw)
+        THEN {"well-formed-plaintext-not-decrypted-to-the-password"} ELSE {})
+
+PwViol(e) == CASE e.c.kind = "bytes" -> ByteViol(e.c, e.r)
+               [] e.c.kind = "rt" -> RtViol(e.c, e.r)
                [] e.c.kind = "craft" -> CraftViol(e.c, e.r)
                [] e.c.kind = "arb" -> ArbViol(e.c, e.r)
 
